@@ -449,7 +449,7 @@ def card_reports(U, snap):
     for i, obj in enumerate(U.objs):
         if kind_of(obj) not in ("sec", "prop"):
             continue
-        # one validation per object: validating a Section does not cover its own Properties
+        # one validation per object
         for err in Validation(obj).errors:
             if err.obj is not obj:
                 continue
@@ -477,15 +477,15 @@ def card_reports(U, snap):
         if i is not None:
             return ("card.report-exact", "obj#%s: unexpected %s issue" % (i, vid))
     # the same rule when a whole tree is validated in one go (several violating objects, deep-equal
-    # twins included, meet in one issue list); a root Section's own Properties are not visited by
-    # Validation(section) and are left to the per-object pass above
+    # twins included, meet in one issue list): every Section and Property below the validated
+    # object, the Properties of a validated Section included
     for r, root in enumerate(U.objs):
         if kind_of(root) not in ("doc", "sec") or (kind_of(root) == "sec" and root.parent is not None):
             continue
         covered = []
         for obj in U.subtree(root):
             knd = kind_of(obj)
-            if knd == "sec" or (knd == "prop" and obj.parent is not root):
+            if knd in ("sec", "prop"):
                 covered.append(obj)
         if len(covered) < 2:
             continue
